@@ -36,6 +36,11 @@ class OpenPath:
         # they are only reachable here through the by-name over-approximation of subscripts
         self.load_time = {"ceos_alos2.array:Array.__getitem__", "ceos_alos2.xarray:LazilyIndexedWrapper.__getitem__",
                           "ceos_alos2.xarray:LazilyIndexedWrapper._raw_indexing_method"}
+        for k in sorted(self.load_time):
+            try:
+                self.load_time.add(repo.func(k).key)  # a method the class inherits from a base class of the package
+            except AnalysisError:
+                pass
         self.reach = self.g.reachable([ENTRY], stop=self.load_time)
 
     def fi(self, key):
